@@ -143,6 +143,11 @@ func init() {
 			if err := os.WriteFile(path, []byte(sb.String()), 0o600); err != nil {
 				return "harness-tempfile"
 			}
+			if p["fpath"] == "dir" { // the path of a directory: it opens, reading it fails
+				path = dir
+			} else if p["fpath"] == "missing" {
+				path = filepath.Join(dir, "no-such-plan.yaml")
+			}
 			args = append(args, path)
 		default:
 			str("rate", "--rate")
@@ -177,6 +182,14 @@ func init() {
 		}
 		if cleanupDir != "" {
 			defer os.RemoveAll(cleanupDir)
+		}
+		if pr, ok := p["profile"]; ok { // --cpuprofile / --memprofile on the root command
+			d, err := os.MkdirTemp("", "f1verif-prof")
+			if err != nil {
+				return "harness-tempdir"
+			}
+			defer os.RemoveAll(d)
+			args = append([]string{"--" + pr + "profile", filepath.Join(d, pr+".prof")}, args...)
 		}
 
 		failEvery := atoi(p["failevery"])
